@@ -44,8 +44,9 @@ def flag (s : String) : Bool := s == "1"
     schema  := "W" nfiles file*
     file    := "F" path pkg isImport syntaxUnspecified nimports import* optvals(7) nenums enum* nmsgs msg* nsvcs svc* nexts field*
     import  := "I" path public weak unused
-    optvals := 7 × hex   (csharp_namespace go_package java_multiple_files java_package php_namespace ruby_package swift_prefix;
-                          java_multiple_files is "-"|"true"|"false" hex-encoded)
+    optvals := 7 × ("~" | hex)   (csharp_namespace go_package java_multiple_files java_package php_namespace ruby_package
+                          swift_prefix; "~" = no option statement in the file, otherwise the hex of the explicit value —
+                          "-" = explicitly the empty string, java_multiple_files "true"|"false" hex-encoded)
     enum    := "E" name comment allowAlias nvalues value*
     value   := "V" name comment number
     msg     := "M" name comment mapEntry nfields field* noneofs oneof* nexts field* nenums enum* nmsgs msg*
@@ -84,6 +85,14 @@ def pStr : P (List Char) := do
   let t ← tok
   match hexDecode t with
   | some s => pure s.toList
+  | none => failure
+
+/-- a raw file option: "~" = no option statement, else the hex of the explicit value -/
+def pOptStr : P (Option (List Char)) := do
+  let t ← tok
+  if t == "~" then pure none else
+  match hexDecode t with
+  | some s => pure (some s.toList)
   | none => failure
 
 def pBool : P Bool := do
@@ -183,7 +192,7 @@ def pFile : P File := do
   let syntaxUnspecified ← pBool
   let ni ← pNat
   let imports ← pMany ni pImport
-  let opts ← pMany 7 pStr
+  let opts ← pMany 7 pOptStr
   let ne ← pNat
   let enums ← pMany ne pEnum
   let nm ← pNat
